@@ -102,6 +102,37 @@ TEMPLATES = {
     else:
         prefix = f'{prefix}/'
     return {f'{prefix}ids': self.ids, f'{prefix}data': self.data}''',
+    # variant that also stores the time_series flag
+    'FEMAttribute.to_dict#ts': '''def to_dict(self, prefix=None):
+    if prefix is None:
+        prefix = ''
+    else:
+        prefix = f'{prefix}/'
+    dict_data = {f'{prefix}ids': self.ids, f'{prefix}data': self.data}
+    if self.time_series:
+        dict_data[f'{prefix}time_series'] = np.array(True)
+    return dict_data''',
+    'FEMAttribute.from_dict#ts': '''@classmethod
+def from_dict(cls, name, dict_data, **kwargs):
+    if len(dict_data) not in (2, 3):
+        raise ValueError(f'Unexpected data to load: {dict_data}')
+    for k, v in dict_data.items():
+        if TEST_IDS:
+            ids_values = v
+        elif TEST_DATA:
+            data_values = v
+        elif TEST_TS:
+            kwargs['time_series'] = bool(v)
+        else:
+            raise ValueError(f'Unexpected key: {k}')
+    return cls(name, ids=ids_values, data=data_values, **kwargs)''',
+    'FEMElementalAttribute.from_dict#ts': '''@classmethod
+def from_dict(cls, name, dict_data, **kwargs):
+    split_dict_data = cls._split_dict_data(dict_data)
+    attributes = {element_type: FEMAttribute.from_dict(name, v, **kwargs) for element_type, v in split_dict_data.items()}
+    if any((a.time_series for a in attributes.values())):
+        kwargs['time_series'] = True
+    return cls(name, attributes, **kwargs)''',
     'FEMAttribute.from_dict': '''@classmethod
 def from_dict(cls, name, dict_data, **kwargs):
     if len(dict_data) != 2:
@@ -209,16 +240,19 @@ class Keys:
         self.consumed[f'{rel}:{cls}.{name}'] = hashlib.sha256(seg.encode()).hexdigest()
         return strip_docs(fn), c
 
-    def check(self, key, fn):
+    def check(self, key, fn, variants=('',)):
+        """-> the variant suffix whose template equals the normalised text"""
         text = ast.unparse(fn)
         self.norm[key] = text
-        if text != TEMPLATES[key]:
-            raise TranslateError(f'{key} differs from the translated template:\n{text}')
+        for v in variants:
+            if text == TEMPLATES[key + v]:
+                return v
+        raise TranslateError(f'{key} differs from the translated template:\n{text}')
 
     def run(self):
         # FEMAttribute
         fn, _ = self.method('FEMAttribute', 'to_dict')
-        self.check('FEMAttribute.to_dict', fn)
+        self.cfg['writes_ts'] = self.check('FEMAttribute.to_dict', fn, ('', '#ts')) == '#ts'
         fn, _ = self.method('FEMAttribute', 'load')
         self.check('FEMAttribute.load', fn)
         fn, _ = self.method('FEMAttribute', 'from_dict')
@@ -230,13 +264,20 @@ class Keys:
             self.cfg['data_test'] = ktest(if2.test, 'k')
             if1.test = ast.Name('TEST_IDS', ast.Load())
             if2.test = ast.Name('TEST_DATA', ast.Load())
+            self.cfg['ts_test'] = None
+            if len(if2.orelse) == 1 and isinstance(if2.orelse[0], ast.If):
+                if3 = if2.orelse[0]
+                self.cfg['ts_test'] = ktest(if3.test, 'k')
+                if3.test = ast.Name('TEST_TS', ast.Load())
         except (IndexError, AttributeError):
             raise TranslateError('FEMAttribute.from_dict: unexpected structure')
-        self.check('FEMAttribute.from_dict', fn)
+        v = self.check('FEMAttribute.from_dict', fn, ('', '#ts'))
+        if (v == '#ts') != (self.cfg['ts_test'] is not None):
+            raise TranslateError('FEMAttribute.from_dict: inconsistent time_series handling')
         # FEMElementalAttribute
         for m in ('to_dict', 'from_dict', 'load', '_validate_keys', 'items'):
             fn, cls = self.method('FEMElementalAttribute', m)
-            self.check('FEMElementalAttribute.' + m, fn)
+            self.check('FEMElementalAttribute.' + m, fn, ('', '#ts') if m == 'from_dict' else ('',))
         fn, cls = self.method('FEMElementalAttribute', '_split_dict_data')
         try:
             ret = fn.body[-1].value            # DictComp
@@ -298,6 +339,8 @@ Open Scope string_scope.
 Definition kcfg : key_cfg := {{|
   ids_test := {kt(cfg['ids_test'])};
   data_test := {kt(cfg['data_test'])};
+  ts_test := {('Some (' + kt(cfg['ts_test']) + ')') if cfg['ts_test'] else 'None'};
+  writes_ts := {'true' if cfg['writes_ts'] else 'false'};
   elem_group := {cfg['elem_group']};
   attrs_group := {cfg['attrs_group']};
   element_types :=
@@ -315,6 +358,6 @@ if __name__ == '__main__':
     except TranslateError as e:
         print('TranslateError:', e)
         for key, text in k.norm.items():
-            if text != TEMPLATES[key]:
+            if text != TEMPLATES[key] and text != TEMPLATES.get(key + '#ts'):
                 print('----', key)
                 print(text)
